@@ -11,8 +11,10 @@ import (
 	"os"
 	"os/exec"
 	"path/filepath"
+	"strconv"
 	"strings"
 	"sync"
+	"syscall"
 	"time"
 
 	"verif/internal/simgen"
@@ -151,13 +153,37 @@ func ScratchBase() string {
 	return os.TempDir()
 }
 
+// reapStale removes scratch worlds left behind by checks that were killed
+// (their owner process no longer exists).
+func reapStale(base string) {
+	dirs, _ := filepath.Glob(filepath.Join(base, "verif-world-*"))
+	for _, d := range dirs {
+		b, err := os.ReadFile(filepath.Join(d, ".pid"))
+		if err != nil {
+			if fi, serr := os.Stat(d); serr == nil && time.Since(fi.ModTime()) > 6*time.Hour {
+				os.RemoveAll(d)
+			}
+			continue
+		}
+		pid, err := strconv.Atoi(strings.TrimSpace(string(b)))
+		if err != nil || pid <= 0 {
+			continue
+		}
+		if err := syscall.Kill(pid, 0); err == syscall.ESRCH {
+			os.RemoveAll(d)
+		}
+	}
+}
+
 // Make builds a scratch world from repoDir's working tree.
 func Make(verifDir, repoDir string, want Want) (*Tree, error) {
 	t0 := time.Now()
+	reapStale(ScratchBase())
 	root, err := os.MkdirTemp(ScratchBase(), "verif-world-")
 	if err != nil {
 		return nil, infra("mktemp: %v", err)
 	}
+	_ = os.WriteFile(filepath.Join(root, ".pid"), []byte(strconv.Itoa(os.Getpid())), 0o644)
 	t := &Tree{Root: root, Stock: filepath.Join(root, "stock"), Bin: filepath.Join(root, "bin"), VerifDir: verifDir, RepoDir: repoDir}
 	fail := func(err error) (*Tree, error) {
 		t.Close()
